@@ -5,9 +5,10 @@
 -/
 import CB.Driver.Util
 import CB.Model.Bits
+import CB.Model.BitForms
 namespace CB
 namespace D05
-open CB CB.Shift CB.Bits
+open CB CB.Shift CB.Bits CB.BitForms
 
 def both (l1 l0 : String) : Option String := some (l1 ++ " ;; " ++ l0)
 
@@ -152,6 +153,14 @@ def intOp (op : String) (n x : Nat) (rest : List Nat) : Option String :=
     both (optHex (wrappingShlU a s)) (if s < bits then shl0 s else "0")
   | "wrapping_shl_vartime", [s] =>
     both (limbsHex (wrappingShlVartimeU a s)) (if s < bits then shl0 s else "0")
+  -- coverage round: `& | ^ !` and `bitand_limb` of `Int` (all forms agree inside the harness); L0 on the
+  -- two's-complement bit pattern, and for `!` also through the signed value: `!x = -x - 1`
+  | "and", [y] => both (limbsHex (intBitand a (toLimbs n y))) (natToHex (x &&& y))
+  | "or", [y] => both (limbsHex (intBitor a (toLimbs n y))) (natToHex (x ||| y))
+  | "xor", [y] => both (limbsHex (intBitxor a (toLimbs n y))) (natToHex (x ^^^ y))
+  | "not", [] => both (limbsHex (intNot a)) (natToHex (ofInt n (-v - 1)))
+  | "and_limb", [l] =>
+    both (limbsHex (intBitandLimb a l)) (natToHex (x &&& (l * ((m - 1) / (B - 1)))))
   | _, _ => none
 
 def bhex (n : Nat) (v : Nat) : String := s!"{n}:{natToHex v}"
@@ -241,6 +250,11 @@ def limbOp (op : String) (x : Nat) (rest : List Nat) : Option String :=
   | "leading_zeros", [] => both (decTok (wlz x)) (decTok (64 - bitlen0 x))
   | "trailing_zeros", [] => both (decTok (wtz x)) (decTok (tz0 64 x))
   | "trailing_ones", [] => both (decTok (wto x)) (decTok (to0 64 x))
+  -- coverage round: `Limb` `& | ^ !` incl. the assigning forms
+  | "and", [y] => both (natToHex (limbAnd x y)) (natToHex (x &&& y))
+  | "or", [y] => both (natToHex (limbOr x y)) (natToHex (x ||| y))
+  | "xor", [y] => both (natToHex (limbXor x y)) (natToHex (x ^^^ y))
+  | "not", [] => both (natToHex (limbNot x)) (natToHex (B - 1 - x))
   | _, _ => none
 
 /-- crate-internal functions reached through hooks: `c05.hook.*` (no L0 of their own) -/
